@@ -210,6 +210,73 @@ fn sanitize(s: &str) -> String {
         .collect()
 }
 
+/// A subscriber that is interested in everything and keeps nothing: with it installed every `trace!` /
+/// `debug!` call site of the library evaluates its arguments (round 7: a log preview that slices a value at a
+/// byte offset). Installed process-wide when VERIF_TRACE is set (the "logging on" pass of C09).
+struct AllOn;
+impl tracing::Subscriber for AllOn {
+    fn enabled(&self, _: &tracing::Metadata<'_>) -> bool {
+        true
+    }
+    fn new_span(&self, _: &tracing::span::Attributes<'_>) -> tracing::span::Id {
+        tracing::span::Id::from_u64(1)
+    }
+    fn record(&self, _: &tracing::span::Id, _: &tracing::span::Record<'_>) {}
+    fn record_follows_from(&self, _: &tracing::span::Id, _: &tracing::span::Id) {}
+    fn event(&self, event: &tracing::Event<'_>) {
+        // format every field, as a real subscriber would
+        struct V(usize);
+        impl tracing::field::Visit for V {
+            fn record_debug(&mut self, _: &tracing::field::Field, value: &dyn std::fmt::Debug) {
+                self.0 += format!("{value:?}").len();
+            }
+        }
+        let mut v = V(0);
+        event.record(&mut v);
+        std::hint::black_box(v.0);
+    }
+    fn enter(&self, _: &tracing::span::Id) {}
+    fn exit(&self, _: &tracing::span::Id) {}
+}
+
+pub fn all_tracing_on_if_asked() {
+    if std::env::var_os("VERIF_TRACE").is_some() {
+        tracing::subscriber::set_global_default(AllOn).unwrap_or_else(|_| machinery_error("a tracing subscriber is already installed"));
+    }
+}
+
+/// The same enumeration once more in a child process with logging switched on (VERIF_TRACE); violations merged.
+pub fn logging_on_pass(ctx: &Ctx, cov: &mut Coverage, violations: &mut Violations) {
+    if std::env::var_os("VERIF_CHILD_PASS").is_some() || std::env::var_os("VERIF_TRACE").is_some() {
+        return;
+    }
+    let exe = std::env::current_exe().unwrap_or_else(|e| machinery_error(&format!("current_exe: {e}")));
+    let out = std::process::Command::new(&exe).arg(ctx.id).arg(ctx.tier.as_str()).env("VERIF_CHILD_PASS", "1").env("VERIF_TRACE", "1").output();
+    let out = match out {
+        Ok(o) if o.status.success() => o,
+        other => machinery_error(&format!("{}: the logging-on pass did not run: {:?}", ctx.id, other.map(|o| (o.status, String::from_utf8_lossy(&o.stderr).chars().take(400).collect::<String>())))),
+    };
+    let text = String::from_utf8_lossy(&out.stdout);
+    let line = text.lines().rev().find(|l| l.starts_with("{\"child_pass\"")).unwrap_or("{}");
+    let v: Value = serde_json::from_str(line).unwrap_or_else(|e| machinery_error(&format!("{}: the logging-on pass printed no JSON: {e}", ctx.id)));
+    let evals = v["evaluations"].as_u64().unwrap_or(0);
+    if evals == 0 {
+        machinery_error(&format!("{}: the logging-on pass evaluated nothing", ctx.id));
+    }
+    cov.evaluations += evals;
+    cov.transitions += v["transitions"].as_u64().unwrap_or(0);
+    cov.set("logging_on_pass", json!({"evaluations": evals, "violations": v["violations"].as_array().map(|a| a.len()).unwrap_or(0)}));
+    for x in v["violations"].as_array().cloned().unwrap_or_default() {
+        let n = x["count"].as_u64().unwrap_or(1);
+        let viol = Violation::new(x["sig"].as_str().unwrap_or("panic"), format!("[with a tracing subscriber at TRACE level; replay with VERIF_TRACE=1] {}", x["what"].as_str().unwrap_or("")), x["case"].clone());
+        let e = violations.by_sig.entry(viol.sig.clone()).or_insert((0, Vec::new()));
+        e.0 += n;
+        if e.1.len() < KEEP_PER_SIG {
+            e.1.push(viol);
+        }
+    }
+}
+
 /// The same check once more in the build with the `chrono` feature (the typed layer's timestamps are a different
 /// type there): `/verif/check` builds that binary for the checks that ask for it and names it in
 /// VERIF_CHRONO_BIN. The child runs the whole enumeration with VERIF_CHILD_PASS set, writes no evidence and
